@@ -241,9 +241,13 @@ V_UN1(copy_assign_self, k_v_copy_assign(p, p))
 V_UN1(swap_self, k_v_swap(p, p))
 Q q_v_assign_own_alt() // v = get<I>(v): the converting assignment with the held alternative as source leaves the value unchanged (std: assigns it to itself)
 {
-    u64 sa = nd_idx(2); PV x = nd_pv();
-    VF_KNOWN(C03_variant_assign_own_alternative, sa < 2);
-    split<2>(sa, [&](u64 a) { void* p = v_make(a, x, 0); S s{a, x}; k_v_assign_own_alt(p); v_check(p, s, 0); v_fin(p, 0); END(); });
+    u64 sa = nd_idx(1); PV x = nd_pv(); // the two instrumented alternatives
+    VF_KNOWN(C03_variant_assign_own_alternative, true);
+    split<1>(sa, [&](u64 a) { void* p = v_make(a, x, 0); S s{a, x}; k_v_assign_own_alt(p); v_check(p, s, 0); v_fin(p, 0); END(); });
+}
+Q q_v_assign_own_int() // the same with the int alternative
+{
+    PV x = nd_pv(); void* p = v_make(2, x, 0); S s{2, x}; k_v_assign_own_alt(p); v_check(p, s, 0); v_fin(p, 0); END();
 }
 Q q_v_move_assign_self()
 {
